@@ -21,8 +21,8 @@ TECHNIQUE = (
 )
 RULE = (
     "enumerated case = (sequence, pattern); each case sweeps the grid missed 0-3 x min 1-4 x max {min, 4|6, 50} x clip x "
-    "semi. quick: all sequences over {K,P,M,A} of length 1-6 x 3 patterns; thorough: all sequences over {K,P,A} with "
-    "optional leading M up to length 10 x 4 patterns. Random case = sequence up to length 120 over 20 residues x "
+    "semi. quick: all sequences over {K,P,M,A} of length 1-6 x 4 patterns; thorough: all sequences over {K,P,A} with "
+    "optional leading M up to length 10 x 5 patterns. Random case = sequence up to length 120 over 20 residues x "
     "drawn pattern and parameters, half of them also through read_fasta (a four-entry database built around the sequence; "
     "unique + shared peptides = union of the entries' digests). Non-trivial: >=2 cleavage sites inside the sequence or a match ending at the last "
     "residue or a leading M with clip. Distinct = distinct (sequence, pattern, parameters)."
@@ -32,7 +32,10 @@ ASSUMPTIONS = [
     "semi fragments of clipped N-terminal forms are allowed but not required (the statement leaves this open)",
     "cleavage site = end of a regex match, as documented for read_fasta",
 ]
-PATTERNS = ["[KR]", "[KR](?!P)", "K", "(?<=[KR])(?!P)", "[FWY]", "KP|K"]
+PATTERNS = ["[KR]", "[KR](?!P)", "K", "(?<=[KR])(?!P)", "[FWY]", "KP|K",
+            # N-terminally cutting rules written as a pure look-ahead (Lys-N / Arg-N style; a zero-width match at position 0
+            # when the sequence starts with the residue)
+            "(?=[KR])", "(?=[KM])"]
 
 
 def budget(tier):
@@ -214,9 +217,9 @@ def check(case):
 
 def enumerate_cases(tier):
     if tier == "quick":
-        alpha, maxlen, pats, gmax, lead = "KPMA", 6, PATTERNS[:3], 4, [""]
+        alpha, maxlen, pats, gmax, lead = "KPMA", 6, PATTERNS[:3] + ["(?=[KM])"], 4, [""]
     else:
-        alpha, maxlen, pats, gmax, lead = "KPA", 10, PATTERNS[:4], 6, ["", "M"]
+        alpha, maxlen, pats, gmax, lead = "KPA", 10, PATTERNS[:4] + ["(?=[KM])"], 6, ["", "M"]
     for L in range(1, maxlen + 1):
         for tup in itertools.product(alpha, repeat=L):
             s = "".join(tup)
@@ -227,8 +230,8 @@ def enumerate_cases(tier):
 
 def exhaustive_claim(tier):
     if tier == "quick":
-        return "all sequences over {K,P,M,A} of length 1-6 x patterns [KR], [KR](?!P), K x grid missed 0-3 x min 1-4 x max {min,4,50} x clip x semi"
-    return "all sequences over {K,P,A} (optionally with leading M) of length 1-10(11) x 4 patterns x grid missed 0-3 x min 1-4 x max {min,6,50} x clip x semi"
+        return "all sequences over {K,P,M,A} of length 1-6 x patterns [KR], [KR](?!P), K, (?=[KM]) x grid missed 0-3 x min 1-4 x max {min,4,50} x clip x semi"
+    return "all sequences over {K,P,A} (optionally with leading M) of length 1-10(11) x 5 patterns x grid missed 0-3 x min 1-4 x max {min,6,50} x clip x semi"
 
 
 AA20 = "ACDEFGHIKLMNPQRSTVWY"
